@@ -395,7 +395,6 @@ fn scenarios(tier: Tier) -> Vec<Scenario> {
             mk("status-edits", Backend::Git),
             mk("update-stale", Backend::GitNc),
             mk("bookmark-set", Backend::Simple),
-            mk("describe", Backend::Git),
         ]
     } else {
         let mut v = vec![];
@@ -744,27 +743,41 @@ pub fn run(cfg: &Cfg, out: &mut Out) {
     let mut scs = scenarios(cfg.tier);
     // replay / extended search knobs: `--only i` keeps scenario i; scale>1 adds the thorough set
     if cfg.scale > 1 && cfg.tier == Tier::Quick {
-        scs = scenarios(Tier::Thorough);
+        // extended search of `check` (three runs with consecutive seeds): the thorough set,
+        // one backend per run — nothing here is random, so the seed only selects the slice
+        let b = [Backend::Git, Backend::GitNc, Backend::Simple][(cfg.seed % 3) as usize];
+        scs = scenarios(Tier::Thorough).into_iter().filter(|s| s.backend == b).collect();
     }
     if let Some(i) = cfg.only {
         scs = scs.into_iter().skip(i as usize).take(1).collect();
     }
+    let full_followup = cfg.tier == Tier::Thorough || cfg.scale > 1;
     let threads: usize = std::env::var("C15_THREADS").ok().and_then(|s| s.parse().ok()).unwrap_or(8);
 
     // templates
     let backends: BTreeSet<u8> = scs.iter().map(|s| s.backend as u8).collect();
     let mut tpls: BTreeMap<u8, PathBuf> = BTreeMap::new();
-    for b in [Backend::Git, Backend::GitNc, Backend::Simple] {
-        if !backends.contains(&(b as u8)) {
-            continue;
+    {
+        let wanted: Vec<Backend> = [Backend::Git, Backend::GitNc, Backend::Simple].into_iter().filter(|b| backends.contains(&(*b as u8))).collect();
+        let built: Mutex<Vec<(Backend, PathBuf, Result<(), String>)>> = Mutex::new(vec![]);
+        std::thread::scope(|s| {
+            for b in &wanted {
+                let (ctx, root, built) = (&ctx, &root, &built);
+                s.spawn(move || {
+                    let dir = root.join(format!("tpl-{}", b.name())).join("w");
+                    std::fs::create_dir_all(dir.parent().unwrap()).unwrap();
+                    let r = build_template(ctx, *b, &dir);
+                    built.lock().unwrap().push((*b, dir, r));
+                });
+            }
+        });
+        for (b, dir, r) in built.into_inner().unwrap() {
+            if let Err(e) = r {
+                out.oracle_fail("harness-template-failed", e);
+                return;
+            }
+            tpls.insert(b as u8, dir);
         }
-        let dir = root.join(format!("tpl-{}", b.name())).join("w");
-        std::fs::create_dir_all(dir.parent().unwrap()).unwrap();
-        if let Err(e) = build_template(&ctx, b, &dir) {
-            out.oracle_fail("harness-template-failed", e);
-            return;
-        }
-        tpls.insert(b as u8, dir);
     }
 
     // reference runs (parallel over scenarios)
@@ -794,8 +807,11 @@ pub fn run(cfg: &Cfg, out: &mut Out) {
     }
 
     // crash runs (parallel over all points)
-    let full_followup = cfg.tier == Tier::Thorough || cfg.scale > 1;
-    let items: Vec<(usize, usize)> = preps.iter().enumerate().flat_map(|(si, p)| (1..=p.trace.len()).map(move |k| (si, k))).collect();
+    // A crash at step k leaves what steps 1..k-1 did.  If step k-1 only reads (`opheads.read`,
+    // `table.read-heads`) the state is the one of crash point k-1: the quick tier skips those.
+    let is_read = |l: &TraceLine| l.kind == "opheads.read" || l.kind == "table.read-heads";
+    let items: Vec<(usize, usize)> = preps.iter().enumerate().flat_map(|(si, p)| (1..=p.trace.len()).map(move |k| (si, k)))
+        .filter(|&(si, k)| full_followup || k < 2 || !is_read(&preps[si].trace[k - 2])).collect();
     let results: Vec<PointObs> = {
         let slots: Mutex<Vec<Option<PointObs>>> = Mutex::new((0..items.len()).map(|_| None).collect());
         let next = AtomicUsize::new(0);
@@ -821,11 +837,11 @@ pub fn run(cfg: &Cfg, out: &mut Out) {
     };
 
     // emit + judge, in deterministic order
-    let mut ri = 0;
-    for p in preps.iter_mut() {
-        let n = p.trace.len();
-        let obs = &results[ri..ri + n];
-        ri += n;
+    let mut by_scenario: Vec<Vec<(usize, PointObs)>> = preps.iter().map(|_| vec![]).collect();
+    for ((si, k), o) in items.iter().zip(results) {
+        by_scenario[*si].push((*k, o));
+    }
+    for (p, obs) in preps.iter_mut().zip(by_scenario.iter()) {
         emit_scenario(&ctx, p, obs, out);
     }
     out.set_exhaustive(false);
@@ -848,7 +864,7 @@ fn tree_label(ctx: &Ctx, p: &mut Prepared, cache: &mut BTreeMap<String, usize>, 
     l
 }
 
-fn emit_scenario(ctx: &Ctx, p: &mut Prepared, obs: &[PointObs], out: &mut Out) {
+fn emit_scenario(ctx: &Ctx, p: &mut Prepared, obs: &[(usize, PointObs)], out: &mut Out) {
     let scn = format!("{}@{}", p.sc.name, p.sc.backend.name());
     let mut cache: BTreeMap<String, usize> = BTreeMap::new();
     let lab_op = |p: &Prepared, h: &str| p.op_label.get(h).copied().unwrap_or(900);
@@ -875,19 +891,20 @@ fn emit_scenario(ctx: &Ctx, p: &mut Prepared, obs: &[PointObs], out: &mut Out) {
     }).collect::<Vec<_>>().join(" ")));
 
     // labels of the working-copy trees found on disk (needs `jj debug tree --id` for unseen ids)
-    let wts: Vec<String> = obs.iter().map(|o| match &o.wc_tree {
+    let wts: Vec<String> = obs.iter().map(|(_, o)| match &o.wc_tree {
         Some(h) => tree_label(ctx, p, &mut cache, h).to_string(),
         None => "none".into(),
     }).collect();
     let p: &Prepared = p;
-    for (i, o) in obs.iter().enumerate() {
-        let k = i + 1;
+    for (oi, (k, o)) in obs.iter().enumerate() {
+        let k = *k;
+        let i = k - 1;
         let line = &p.trace[i];
         let at = format!("{scn} k={k}/{} ({} {})", p.trace.len(), line.kind, line.detail);
         out.tally("crash-step-kind", &line.kind);
 
         // --- implementation's answer -------------------------------------------------------
-        let wt = wts[i].clone();
+        let wt = wts[oi].clone();
         let wo = match &o.wc_op { Some(h) => lab_op(p, h).to_string(), None => "none".into() };
         let head = o.oplog.as_ref().and_then(|v| v.first().cloned());
         let state_label = o.state.as_ref().map(|s| p.states.iter().position(|x| x == s));
@@ -909,12 +926,14 @@ fn emit_scenario(ctx: &Ctx, p: &mut Prepared, obs: &[PointObs], out: &mut Out) {
         out.tally("observed", &format!("head={} wc={}", if head.as_deref() == p.before_ops.last().map(|s| s.as_str()) { "before" } else { "later" }, wc));
 
         // --- oracle (property text) ----------------------------------------------------------
-        judge_point(p, o, k, &at, out);
+        judge_point(p, o, k, &at, wts[oi].parse::<usize>().ok(), out);
 
         // --- persist idiom: at a rename step the temp file must already be complete -----------
         if line.kind == "persist" || line.kind == "persist-ca" {
             let rel = &line.detail;
-            let old = p.before_objs.get(rel).or_else(|| p.before_disk.get(rel));
+            // the same content-addressed object may be written twice by one command
+            let written_earlier = p.trace[..i].iter().any(|l| (l.kind == "persist" || l.kind == "persist-ca") && l.detail == *rel);
+            let old = p.before_objs.get(rel).or_else(|| if written_earlier { p.after_objs.get(rel) } else { None });
             let expected = p.after_objs.get(rel);
             let is_wc_file = rel.starts_with(".jj/working_copy/");
             if !is_wc_file {
@@ -945,7 +964,7 @@ fn emit_scenario(ctx: &Ctx, p: &mut Prepared, obs: &[PointObs], out: &mut Out) {
 }
 
 /// The property's own statement, evaluated on what the real repository shows after the crash.
-fn judge_point(p: &Prepared, o: &PointObs, k: usize, at: &str, out: &mut Out) {
+fn judge_point(p: &Prepared, o: &PointObs, k: usize, at: &str, wt_label: Option<usize>, out: &mut Out) {
     // the crash really happened where the reference trace says
     if !o.crash.aborted() {
         out.oracle_fail("harness-crash-run-did-not-abort", format!("{at}: {}", o.crash.brief()));
@@ -971,7 +990,7 @@ fn judge_point(p: &Prepared, o: &PointObs, k: usize, at: &str, out: &mut Out) {
         match (p.before_objs.get(path), p.after_objs.get(path)) {
             (Some(b), _) if same_object(path, b, bytes) => {}
             (_, Some(a)) if same_object(path, a, bytes) => {}
-            (None, None) => unknown += 1,
+            (None, None) => { unknown += 1; out.tally("object-not-in-reference-run", &format!("{}/{}", path.rsplit('/').nth(1).unwrap_or(""), p.sc.backend.name())); }
             _ => { bad = Some(path.clone()); }
         }
     }
@@ -1010,6 +1029,17 @@ fn judge_point(p: &Prepared, o: &PointObs, k: usize, at: &str, out: &mut Out) {
         Some(sl) if head_known && p.op_state.get(&head) == Some(&sl) => out.oracle_ok(),
         Some(sl) => out.oracle_fail("state-neither-before-nor-after", format!("{at}: head {} shows state #{sl} which is not the state of that operation", &head[..head.len().min(12)])),
         None => out.oracle_fail("state-neither-before-nor-after", format!("{at}: visible state matches neither the before-state nor the state after any operation of the command; head {}", &head[..head.len().min(12)])),
+    }
+    // 4'. … also for the working copy's own record: (old op, old tree), (old op, new tree) and
+    //     (new op, new tree) are states the documented stale handling covers; a `checkout` file that
+    //     names the current head while `tree_state` still records another tree is neither
+    if o.wc_op.as_deref() == Some(head.as_str()) && head_known {
+        match (wt_label, p.op_tree.get(&head)) {
+            (Some(w), Some(t)) if w != *t => out.oracle_fail("working-copy-record-inconsistent",
+                format!("{at}: checkout names the head {} but tree_state records tree #{w}, the head's working-copy tree is #{t}", &head[..12])),
+            (Some(_), Some(_)) => out.oracle_ok(),
+            _ => {}
+        }
     }
     // 5. the working copy can be brought up to date with the documented recovery command
     let recovered = if o.status1.ok() {
